@@ -1,5 +1,7 @@
 /- C11: closed witnesses on the models of the PINNED code and of partial repairs (checked by `decide`) -/
 import SemaModel.C11.Inv14
+set_option linter.unusedSimpArgs false
+set_option linter.unusedVariables false
 namespace Sema.C11
 
 theorem runLabs_reachable {s0 : St} : ∀ (l : List Lab) (s s' : St), Reachable s0 s → runLabs s l = some s' → Reachable s0 s'
